@@ -211,6 +211,14 @@ def anchors(ctx, which, n_arcs, per_type=4):
             label = ",".join(t[:3]) + ("..." if len(t) > 3 else "")
             out.append({"lon": b["a"][0], "lat": b["a"][1], "type": label})
             out.append({"lon": b["b"][0], "lat": b["b"][1], "type": label})
+    # thin slabs and tolerance bands that signatures cannot separate: operands of the library's comparisons (lib/cmpsearch.py)
+    try:
+        from lib import cmpsearch
+        extra = cmpsearch.anchors(ctx, which, max(4, n_arcs // 25))
+        thin = [a for a in extra if a["type"].endswith(":slab") or a["type"].endswith(":touch")]
+        out = out + extra + thin * 3          # thin regions are reachable through these anchors only: sample them more often
+    except Exception:  # noqa: BLE001 - the search is an aid for aiming; without it the stage runs on its other anchors
+        ctx.col.count("cmp_search_unavailable")
     _anchor_cache[key] = out
     ctx.col.count(f"branch_boundaries_found_{which}", len(bs))
     ctx.col.count(f"branch_boundary_types_{which}", len(by_type(bs)))
